@@ -387,7 +387,7 @@ func (g *Gen) Step() {
 		}
 		g.emit(in)
 	case "set_keys":
-		ops := []string{"", "", "fresh", "fresh", "xchain", "xchain", "steal_ext", "steal_ext_key", "steal_ext_key", "steal_orch", "stale", "future", "wrong_key", "replay", "unknown_val", "other_signer"}
+		ops := []string{"", "", "fresh", "fresh", "xchain", "xchain", "steal_ext", "steal_ext_key", "steal_ext_key", "steal_orch", "stale", "future", "wrong_key", "replay", "unknown_val", "other_signer", "rotate_orch", "rotate_orch_badsig"}
 		chains := append(append([]string{}, Chains...), "tron")
 		in := Intent{T: "set_keys", V: g.R.Intn(len(w.Vals)), Chain: chains[g.R.Intn(len(chains))], Op: ops[g.R.Intn(len(ops))], Pick: g.R.Intn(len(w.Vals)), Net: g.net()}
 		if g.R.Intn(8) == 0 {
@@ -409,7 +409,12 @@ func (g *Gen) Step() {
 			// only where nothing but block processing is judged: a delisted token changes what every other law means
 			g.emit(Intent{T: "gov", Op: "delist", V: g.R.Intn(len(w.Vals)), Pick: g.R.Intn(9)})
 		} else if g.R.Intn(2) == 0 {
-			g.emit(Intent{T: "gov", Op: "cold", V: g.R.Intn(len(w.Vals)), Chain: t.Chain, Denom: t.Denom, Amt: g.amount(new(big.Int).Quo(bigOf(w.Cfg.UserFunds), big.NewInt(10)))})
+			in := Intent{T: "gov", Op: "cold", V: g.R.Intn(len(w.Vals)), Chain: t.Chain, Denom: t.Denom, Amt: g.amount(new(big.Int).Quo(bigOf(w.Cfg.UserFunds), big.NewInt(10)))}
+			if ds := w.Cfg.Denoms(); len(ds) > 1 && g.R.Intn(3) == 0 {
+				// a second coin; its denom may not be bridged to that chain at all
+				in.Vals = []string{ds[g.R.Intn(len(ds))] + ":" + g.amount(new(big.Int).Quo(bigOf(w.Cfg.UserFunds), big.NewInt(10)))}
+			}
+			g.emit(in)
 		} else {
 			g.emit(Intent{T: "gov", Op: "commission", V: g.R.Intn(len(w.Vals)), Pick: g.R.Intn(9), Amt: commChoices[g.R.Intn(len(commChoices))]})
 		}
